@@ -17,7 +17,7 @@ for k in sorted(os.listdir('/verif/seeded')):
     conf=json.load(open(p+'/confirm.json')) if os.path.exists(p+'/confirm.json') else {}
     notes=open(p+'/notes.md').read() if os.path.exists(p+'/notes.md') else ''
     det=r.get('detection','')
-    caught=sorted(set(re.findall(r'(C\d\d) quick CAUGHT',det)))
+    caught=sorted(set(re.findall(r'(C\d\d) (?:quick|thorough) CAUGHT',det)))
     meta={"id":k,"property":k.split('-')[0],
       "change":r.get('change','see notes.md'),
       "needs_to_manifest": json.load(open(p+"/meta.json")).get("needs_to_manifest","see notes.md") if os.path.exists(p+"/meta.json") else "see notes.md",
